@@ -155,6 +155,7 @@ CONST_POOL = [
     {"$": "t", "v": [1]}, {"$": "t", "v": ["a"]}, {"$": "t", "v": [{"$": "t", "v": [1]}]}, [{"$": "t", "v": [0]}],
     {"$": "d", "v": [["k", {"$": "t", "v": [None]}]]}, {"$": "t", "v": [[1, 2]]},
 ]
+CONST_RISKY = [c for c in CONST_POOL if contains_single_tuple(c) or (isinstance(c, str) and "\n" in c)]
 CONST_SAFE = [c for c in CONST_POOL if not contains_single_tuple(c) and not (isinstance(c, str) and "\n" in c)]
 
 # stub parameter defaults by parameter type: literals, and values whose repr is no expression for them (enum members,
@@ -1178,14 +1179,16 @@ class Gen:
         """-> (source type, destination type) coercible by the documented rules (by construction).
         ``loc`` = (src pred, dst pred) of the field position, when coercer-by-field is possible."""
         w = self.draw(st.integers(0, 99))
-        if w < 38:  # noqa: PLR2004
+        if inner and w < 30 and self.chance(50):  # noqa: PLR2004  -- containers of nested models are the interesting ones
+            w = 60
+        if w < 30:  # noqa: PLR2004
             s = self.scalar()
             return s, s
-        if w < 45:  # noqa: PLR2004
+        if w < 36:  # noqa: PLR2004
             return self.scalar(), ["any"]
-        if w < 50:  # noqa: PLR2004
+        if w < 41:  # noqa: PLR2004
             return (["bool"], ["int"]) if self.chance(70) else (["enum"], ["int"])
-        if w < 55:  # noqa: PLR2004
+        if w < 46:  # noqa: PLR2004
             members = self.draw(st.lists(st.sampled_from(["int", "str", "bytes", "float", "bool"]), min_size=2, max_size=3,
                                          unique=True))
             extra = [m for m in ["int", "str", "bytes", "float", "bool", "dec"] if m not in members]
@@ -1193,7 +1196,7 @@ class Gen:
             if self.chance(50):
                 dm = list(reversed(dm))
             return ["union", [[m] for m in members]], ["union", [[m] for m in dm]]
-        if w < 66:  # noqa: PLR2004
+        if w < 56:  # noqa: PLR2004
             u = self.pick(["int", "str", "float", "bytes", "dec"])
             t = self.pick([x for x in ["int", "str", "float", "bytes", "dec"] if x != u])
             if loc is not None and self.chance(35):
@@ -1201,19 +1204,19 @@ class Gen:
             else:
                 self.groups.append([{"k": "coercer", "src": ["T", [u]], "dst": ["T", [t]], "fn": self.fn_spec(t)}])
             return [u], [t]
-        if w < 78 and depth < 2 and len(self.models) < 8:  # noqa: PLR2004
+        if w < 74 and depth < 2 and len(self.models) < 8:  # noqa: PLR2004
             if self.pairs and self.chance(20):
                 smi, dmi = self.pick(self.pairs)
                 if smi not in self.open and dmi not in self.open:
                     return ["model", smi], ["model", dmi]
             smi, dmi = self.pair(depth + 1)
             return ["model", smi], ["model", dmi]
-        if w < 86 and not inner:  # noqa: PLR2004
+        if w < 82 and not inner:  # noqa: PLR2004
             s, d = self.tpair(depth, None, inner=True)
             if s[0] in ("union", "opt") or d[0] in ("union", "opt", "any"):
                 return s, d
             return ["opt", s], ["opt", d]
-        if w < 95:  # noqa: PLR2004
+        if w < 94:  # noqa: PLR2004
             s, d = self.tpair(depth, None, inner=True)
             hashable = s[0] in SCALARS and d[0] in SCALARS
             sk = self.pick(["list", "list", "tuple", "deque"] + (["set"] if hashable else []))
@@ -1221,6 +1224,10 @@ class Gen:
             return [sk, s], [dk, d]
         s, d = self.tpair(depth, None, inner=True)
         k = [self.pick(["str", "int"])]
+        if self.chance(20):   # keys go through a coercer as well
+            k2 = ["str"] if k == ["int"] else ["int"]
+            self.groups.append([{"k": "coercer", "src": ["T", k], "dst": ["T", k2], "fn": self.fn_spec(k2[0])}])
+            return ["dict", k, s], ["dict", k2, d]
         return ["dict", k, s], ["dict", k, d]
 
     # ---- model pairs
@@ -1250,7 +1257,7 @@ class Gen:
         for g in dnames:
             modes = ["same"] * 5 + ["renamed"] * 4 + ["const"] * 2 + ["func"] * 2 + ["unlinked"] * 2
             if self.allow_params:
-                modes += ["from_param"] * 3 + (["param_same"] * 4 if top else ["nested_shadow"] * 3)
+                modes += ["from_param"] * 3 + (["param_same"] * 4 if top else ["nested_shadow"] * 4 + ["from_param"] * 2)
             if self.neg and not self.neg_done:
                 modes += ["neg"] * 6
             if g in snames:
@@ -1295,7 +1302,7 @@ class Gen:
                 if self.chance(20):
                     pre.append({"k": "link", "src": ["PF", smi, "no_such_field"], "dst": self.dst_pred(dmi, g)})
             elif mode == "param_same":
-                s, d = self.tpair(2, (["FP", g], ["PF", dmi, g]))
+                s, d = self.tpair(2, (["FP", g], ["PF", dmi, g])) if self.chance(85) else (["any"], ["any"])
                 p = self.param(g, s)
                 if p["t"] != s:
                     d = p["t"]
@@ -1322,7 +1329,8 @@ class Gen:
                 w = self.draw(st.integers(0, 9))
                 if w < 7:  # noqa: PLR2004
                     t = ["any"]
-                    item["value"] = self.pick(CONST_POOL if self.probe else CONST_SAFE)
+                    item["value"] = self.pick(CONST_RISKY if self.probe and self.chance(60) else
+                                              CONST_POOL if self.probe else CONST_SAFE)
                 elif w < 9:  # noqa: PLR2004
                     t = ["any"]
                     item["factory"] = self.pick(["list", "dict", "tuple", "str", "set", "bytes", f"mk:{next(self.tag)}"])
@@ -1595,7 +1603,7 @@ def explore(ctx: runner.Ctx):
     if ctx.shard == 0:
         for case in fixed_cases():
             check_case(ctx, case)
-    ctx.given(st_case(), lambda case: check_case(ctx, case), ctx.budget(2400, 160000))
+    ctx.given(st_case(), lambda case: check_case(ctx, case), ctx.budget(4000, 240000))
 
 
 RULE = ("case = (model specs, src, dst, recipe, entry point + stub signature, call plan, values), generated "
